@@ -89,6 +89,13 @@ CLAIMED = {
         "Plain nested loops in float64 as reference (tolerance 1e-12 of sum|w f|); grids of up to 5 nodes per domain.",
         "DESIGN.md 3/C18",
     ),
+    "C14": (
+        "exploration",
+        "complete product grid (1-D, 2-D, 3-D point sets, atomic grid) x moment type x maximal order 0..L x 1..3 centres (incl. a grid point) x function-value basis (unit vectors + two smooth arrays; the map is linear) x return_orders x integer type of the order, against direct sums with an independently generated Horton order list and solid harmonics from the independent recursion oracle",
+        "Every row of every order up to the bound is compared for every centre and basis function (4.8e4 entries quick), so (l,m)->row and (n,l,m)->row bookkeeping, multi-centre stacking and the 1-D/2-D order generators are decided for all orders up to L.",
+        "Linearity in the function values makes the unit-vector basis decide all value arrays; tolerance 1e-11 of sum|w f basis|; orders up to 6 (thorough 8).",
+        "DESIGN.md 3/C14",
+    ),
 }
 
 NOT_YET = "check not built yet in this session (work in progress; see DESIGN.md section 8 for the order of work)"
